@@ -71,14 +71,15 @@ class StorageFacts:
         self.cursor = [v for v in self.shared_values if v != self.count][0]
         # the write handle: the `file=` target of the print in __setitem__
         self.wfile = None
+        sflow = Flow(self.setitem.node)
         for c in calls_in(self.setitem.node):
             if src(c.func) == "print":
                 f = kwarg(c, "file")
-                d = dotted(f) if f is not None else None
+                d = dotted(sflow.expand(f)) if f is not None else None          # `out = self._file; print(.., file=out)`
                 if d and len(d) == 2:
                     self.wfile = d[1]
             elif isinstance(c.func, ast.Attribute) and c.func.attr == "write":
-                d = dotted(c.func.value)
+                d = dotted(sflow.expand(c.func.value))
                 if d and len(d) == 2:
                     self.wfile = d[1]
         if self.wfile is None:
@@ -196,14 +197,23 @@ class _Publish(Client):
     def should_inline(self, func, call, ctx):
         return func.cls is self.sf.cls and func.name not in ("open", "__len__")
 
+    def _x(self, e, ctx):
+        """a local that names a field or a value (`out = self._file`, `entry = (pid, offset)`) reads as its definition"""
+        if isinstance(e, ast.Name):
+            fl = getattr(ctx.func.node, "_flow", None)
+            if fl is None:
+                fl = ctx.func.node._flow = Flow(ctx.func.node)
+            return fl.expand(e)
+        return e
+
     def classify(self, call, ctx: Ctx):
         sn = ctx.func.self_name
-        if isinstance(call.func, ast.Attribute) and dotted(call.func.value) == (sn, self.sf.wfile):
+        if isinstance(call.func, ast.Attribute) and dotted(self._x(call.func.value, ctx)) == (sn, self.sf.wfile):
             if call.func.attr in ("tell", "write", "flush", "writelines"):
                 return "file:" + call.func.attr
         if src(call.func) == "print":
             f = kwarg(call, "file")
-            if f is not None and dotted(f) == (sn, self.sf.wfile):
+            if f is not None and dotted(self._x(f, ctx)) == (sn, self.sf.wfile):
                 return "file:print"
         return None
 
@@ -243,6 +253,8 @@ class _Publish(Client):
         if kind == "store" and isinstance(node, ast.Subscript) and dotted(node.value) == (sn, sf.index) \
                 and src(node.slice) == self.gid:
             val = assigned_value(node)
+            if val is not None:
+                val = self._x(val, ctx)
             if val is None or const_value(val, 0) is None:
                 return (state,)
             self._need_free("the publication of the index entry", node, dup)
@@ -461,8 +473,16 @@ def r5_reset(prog, rep: Report, sf: StorageFacts):
     # files removed: loop over the writer paths with os.remove
     paths = [l for l in sf.shared_lists if l != sf.index]
     ok = False
+    fflow = Flow(f.node)
+
+    def walked(e):
+        """the container a loop walks, through a named snapshot / copy (`ps = list(self._paths); for p in ps`)"""
+        e = fflow.expand(e) if isinstance(e, ast.Name) else e
+        while isinstance(e, ast.Call) and src(e.func) in ("list", "tuple", "sorted") and len(e.args) == 1:
+            e = fflow.expand(e.args[0]) if isinstance(e.args[0], ast.Name) else e.args[0]
+        return dotted(e)
     for n in walk_own(f.node):
-        if isinstance(n, ast.For) and dotted(n.iter) and dotted(n.iter)[-1] in paths and isinstance(n.target, ast.Name):
+        if isinstance(n, ast.For) and walked(n.iter) and walked(n.iter)[-1] in paths and isinstance(n.target, ast.Name):
             for c in ast.walk(n):
                 if isinstance(c, ast.Call) and (ext_name(prog, f, c) in ("os.remove", "os.unlink")) and c.args \
                         and src(c.args[0]) == n.target.id:
@@ -541,37 +561,120 @@ def r7_reader(prog, rep: Report, sf: StorageFacts):
              floor=2)
     f = sf.getitem
     rep.fn(f)
-    client = _Reader(sf, f)
-    it = Interp(prog, client)
-    it.run(f, {(None, None, None)}, sf.cls)
-    if client.reads == 0:
-        rep.unrec("C14.R7", f, "guards", "no readline in __getitem__")
-        return
-    probs = sorted(set(client.problems))
-    rep.check("C14.R7", f, "guards", not probs, "bounds and None tests dominate the read; seek before readline",
-              "; ".join(m for _, m in probs),
-              scenario="reading an id that was never stored returns '' / raises TypeError instead of IndexError; or the "
-                       "line of another id is returned", line=probs[0][0] if probs else None)
-    # the seek argument is the offset component of the entry, the handle is selected by its writer component
-    flow = Flow(f.node)
-    unpack = None
-    for n in walk_own(f.node):
-        if isinstance(n, ast.Assign) and isinstance(n.targets[0], ast.Tuple) and len(n.targets[0].elts) == 2 \
-                and isinstance(n.value, ast.Name) and n.value.id in client.entry_vars:
-            unpack = [x.id for x in n.targets[0].elts]
-    good = False
-    if unpack:
-        pid, off = unpack
-        seeks = [c for c in calls_in(f.node) if isinstance(c.func, ast.Attribute) and c.func.attr == "seek"]
-        reads = [c for c in calls_in(f.node) if isinstance(c.func, ast.Attribute) and c.func.attr == "readline"]
-        def handle_of(c):
-            # the receiver, with a local alias of the selected handle expanded (`h = self.<cache>[pid]; h.seek(off)`)
-            return src(flow.expand(c.func.value))
-        good = bool(seeks) and all(len(c.args) == 1 and src(flow.expand(c.args[0])) == off and f"[{pid}]" in handle_of(c) for c in seeks) \
-            and all(f"[{pid}]" in handle_of(c) for c in reads)
-    rep.check("C14.R7", f, "offset-roles", good, "seek(offset) on the handle of the recorded writer",
-              "the seek does not use the (writer, offset) components of the index entry in their roles",
-              scenario="the reader seeks with the writer id as offset or reads another writer's file: another id's text is returned")
+    from ..paths import strip_versions, subterms, summaries, show
+    gid = ("p", f.params[1])
+    INDEX = ("attr", ("self",), sf.index)
+
+    def is_entry(t):
+        t = strip_versions(t)
+        return isinstance(t, tuple) and t[0] == "sub" and t[1] == INDEX and t[2] == gid
+
+    def is_len_index(t):
+        t = strip_versions(t)
+        return t == ("call", "len", (INDEX,))
+    # three worlds: the id lies beyond the index / its entry is None / its entry is a (writer, offset) pair; the method's
+    # private helpers are followed, the arrangement of the tests does not matter
+    def assume_for(world):
+        def a(term):
+            t = term
+            neg = False
+            while isinstance(t, tuple) and t and t[0] == "not":
+                t, neg = t[1], not neg
+            r = None
+            if isinstance(t, tuple) and t[0] == "cmp":
+                op, x, y = t[1], strip_versions(t[2]), strip_versions(t[3])
+                if op in ("Is", "IsNot") and y == ("c", None) and is_entry(x):
+                    r = (world == "none") if op == "Is" else (world != "none")
+                elif (is_len_index(x) and y == gid) or (x == gid and is_len_index(y)):
+                    o = {"beyond-eq": 0, "beyond-gt": 1}.get(world, -1)          # sign of id - len
+                    if is_len_index(x):
+                        o = -o                                                   # the comparison reads len <op> id
+                    r = {"Lt": o < 0, "LtE": o <= 0, "Gt": o > 0, "GtE": o >= 0, "Eq": o == 0, "NotEq": o != 0}.get(op)
+            if r is None:
+                return None
+            return r != neg
+        return a
+    def _assumed(d):
+        return any(assume_for(w)(d) is not None for w in ("beyond-eq", "none", "present"))
+    verdict = {"guards": [], "offset-roles": []}
+    for world in ("beyond-eq", "beyond-gt", "none", "present"):
+        ps, un = summaries(prog, f, sf.cls, assume=assume_for(world))
+        if un:
+            verdict["guards"].append(("unrec", "; ".join(un)))
+            continue
+        for p_ in ps:
+            reads = [e for e in p_.events if e[0] == "call" and e[1] in ("readline", "read", "readlines")]
+            seeks = [e for e in p_.events if e[0] == "call" and e[1] == "seek"]
+            if world in ("beyond-eq", "beyond-gt", "none"):
+                beyond = world != "none"
+                if reads:
+                    verdict["guards"].append(("viol", "the file is read on a path where " +
+                                              ("the id lies beyond the index" if beyond else "the index entry may be None")))
+                elif p_.exit == "raise:IndexError":
+                    verdict["guards"].append(("ok", ""))
+                elif beyond and any(is_entry(t) for e in p_.events for x in e[1:] if isinstance(x, tuple) for t in subterms(x)) or \
+                        (beyond and is_entry(p_.value)):
+                    continue                                # index[id] was evaluated: that raises IndexError by itself
+                else:
+                    verdict["guards"].append(("unrec" if p_.decisions and any(not _assumed(d) for d, _ in p_.decisions) else "viol",
+                                              f"for an id {'beyond the index' if beyond else 'whose entry is None'} the look-up ends with "
+                                              f"{p_.exit} instead of IndexError"))
+                continue
+            # present
+            if p_.exit != "return":
+                if p_.exit == "raise:IndexError" and not reads:
+                    verdict["guards"].append(("viol", "IndexError is raised for an id whose entry is present"))
+                continue
+            if not reads:
+                verdict["guards"].append(("unrec", "a path returns without reading the file"))
+                continue
+            ok_order = True
+            for rd in reads:
+                i_rd = p_.events.index(rd)
+                same = [sk for sk in seeks if strip_versions(sk[2]) == strip_versions(rd[2]) and p_.events.index(sk) < i_rd]
+                if not same:
+                    ok_order = False
+            verdict["guards"].append(("ok", "") if ok_order else ("viol", "a line is read from a handle that was not positioned by a seek first"))
+            roles_ok = True
+
+            def by_writer(h):
+                """the handle is selected by the entry's writer component: <cache>[writer], or a file just opened from
+                <paths>[writer]"""
+                def is_pid(t):
+                    return isinstance(t, tuple) and t[:1] == ("sub",) and is_entry(t[1]) and t[2] == ("c", 0)
+                if isinstance(h, tuple) and h[0] == "sub" and is_pid(h[2]):
+                    return True
+                if isinstance(h, tuple) and h[0] == "eff" and h[1] == "open" and h[3] and isinstance(h[3][0], tuple) \
+                        and h[3][0][0] == "sub" and is_pid(h[3][0][2]):
+                    return True
+                return False
+            for sk in seeks:
+                h, args = strip_versions(sk[2]), sk[3]
+                off_ok = len(args) == 1 and strip_versions(args[0])[:1] == ("sub",) and is_entry(strip_versions(args[0])[1]) \
+                    and strip_versions(args[0])[2] == ("c", 1)
+                pid_ok = by_writer(h)
+                if not (off_ok and pid_ok):
+                    roles_ok = False
+            for rd in reads:
+                h = strip_versions(rd[2])
+                if not by_writer(h):
+                    roles_ok = False
+            verdict["offset-roles"].append(("ok", "") if roles_ok and seeks else
+                                           ("viol", "the seek does not use the (writer, offset) components of the index entry in their roles"))
+    for role, okmsg, scen in (("guards", "bounds and None tests dominate the read; seek before readline",
+                               "reading an id that was never stored returns '' / raises TypeError instead of IndexError; or the "
+                               "line of another id is returned"),
+                              ("offset-roles", "seek(offset) on the handle of the recorded writer",
+                               "the reader seeks with the writer id as offset or reads another writer's file: another id's text is returned")):
+        vs = verdict[role]
+        bad = sorted({m for k, m in vs if k == "viol"})
+        un_ = sorted({m for k, m in vs if k == "unrec"})
+        if bad:
+            rep.viol("C14.R7", f, role, "; ".join(bad), scenario=scen)
+        elif un_ or not vs:
+            rep.unrec("C14.R7", f, role, "; ".join(un_) or "no path understood")
+        else:
+            rep.ok("C14.R7", f, role, okmsg)
 
 
 class _OpenModes(Client):
